@@ -2,7 +2,7 @@
 From Coq Require Import List Bool ZArith Lia Arith.
 From Coq.Strings Require Import Byte.
 Import ListNotations.
-From Zap Require Import Base.Wire C05.Cores C05.CoreProofs C05.Model C05.Proofs C06.Model.
+From Zap Require Import Base.Wire C05.Cores C05.CoreProofs C05.Sampling C05.SamplingProofs C05.Model C05.Proofs C06.Model.
 Open Scope Z_scope.
 
 (* the levels at which a logger must lose control *)
@@ -350,6 +350,98 @@ Proof.
   split; [exact Hs|]. symmetry. apply nothing_pending_all_committed. exact Hs.
 Qed.
 
+(* ---------------- samplers that really drop ---------------- *)
+(* Logger.check + CheckedEntry.Write after ANY answer of Core.Check: the cores on it, then whatever hook the level asks for *)
+Lemma finish_eq lg io l e : finish lg io l e = (write_events io l (cores_of e), after_hook lg l).
+Proof. unfold finish. destruct e, (after_hook lg l); reflexivity. Qed.
+Lemma log_call_s_eq dec w lg io f l :
+  log_call_s dec w lg io f l =
+  (write_events io l (call_writers_s dec w (lcore lg) f l),
+   if reaches_check w (lcore lg) f l then after_hook lg l else None).
+Proof. unfold log_call_s, call_writers_s. destruct (reaches_check w (lcore lg) f l); [apply finish_eq|reflexivity]. Qed.
+
+Lemma terminal_hi lg l : terminal lg l -> (ErrorL <? l) = true.
+Proof.
+  intros Ht. apply Z.ltb_lt. destruct (terminal_level lg l Ht) as [<-|[<-|[<-|[]]]]; unfold ErrorL, DPanicL, PanicL, FatalL; lia.
+Qed.
+Lemma terminal_valid lg l : terminal lg l -> is_valid l = true.
+Proof. intros Ht. destruct (terminal_level lg l Ht) as [<-|[<-|[<-|[]]]]; reflexivity. Qed.
+Lemma effective_valid dec l : is_valid l = true -> forall j, effective dec l j = dec j.
+Proof. intros H j. unfold effective. rewrite H. reflexivity. Qed.
+
+(* whatever the samplers decide, a terminal call of any front-end method writes what Core.Check registered and
+   then runs the terminal action *)
+Theorem terminates_s_thm dec w lg io m l :
+  In m methods -> can_log m l = true -> terminal lg l ->
+  log_call_s dec w lg io (fam_of m) l =
+  (write_events io l (cores_of (check_s dec w (lcore lg) 0 l None)), Some (expected_action lg l)).
+Proof.
+  intros Hm Hc Ht. rewrite log_call_s_eq. unfold call_writers_s, logger_check_s.
+  rewrite (reaches_terminal w (lcore lg) m l lg Hm Hc Ht), (after_hook_terminal lg l Ht).
+  assert ((l <? DPanicL) = false) as ->; [|reflexivity].
+  apply Z.ltb_ge. destruct (terminal_level lg l Ht) as [<-|[<-|[<-|[]]]]; unfold DPanicL, PanicL, FatalL; lia.
+Qed.
+
+(* with samplers that never drop this is the call of the theorems above *)
+Theorem no_drop_plain_thm w lg io f l : log_call_s no_drop w lg io f l = log_call w lg io f l.
+Proof.
+  unfold log_call_s, log_call, logger_check_s, logger_check.
+  destruct (sampler_no_drop_thm w (lcore lg) 0%nat l None) as [-> _]. reflexivity.
+Qed.
+
+(* before control is lost: the entry has been handed, in order, to every leaf all of whose level filters enable
+   the level and none of whose samplers dropped it - whatever else is in the tree *)
+Theorem written_first_s_thm dec w lg m l :
+  In m methods -> can_log m l = true -> terminal lg l ->
+  let evs := fst (log_call_s dec w lg all_io (fam_of m) l) in
+  writes_of evs = delivered_s dec w (lcore lg) 0 l /\
+  ev_hooks_of evs = hooks_due_s dec w (lcore lg) 0 l /\
+  sync_ok true evs = true /\
+  (forall id, flushed_lines id evs 0 0 = count_writes id (delivered_s dec w (lcore lg) 0 l)).
+Proof.
+  intros Hm Hc Ht. rewrite log_call_s_eq. cbn [fst].
+  pose proof (terminal_hi lg l Ht) as Hhi.
+  destruct (sampler_front_ends_thm dec w (lcore lg) (fam_of m) l) as [HL HH].
+  rewrite (delivered_s_ext _ dec w (lcore lg) 0%nat l (effective_valid dec l (terminal_valid lg l Ht))) in HL.
+  rewrite (hooks_due_s_ext _ dec w (lcore lg) 0%nat l (effective_valid dec l (terminal_valid lg l Ht))) in HH.
+  split; [rewrite writes_of_write_events; exact HL|].
+  split; [rewrite hooks_of_write_events; exact HH|].
+  split; [pose proof (sync_ok_write_events l (call_writers_s dec w (lcore lg) (fam_of m) l)) as Hs; rewrite Hhi in Hs; exact Hs|].
+  intros id. rewrite flushed_write_events, Hhi, HL. reflexivity.
+Qed.
+
+(* "handed to every accepting core ... even when the entry is sampled out": take any root-to-leaf path of the tree
+   - [ens] the level filters on it (the leaf's own enabler included), [ss] the samplers on it.  If every filter on
+   the path enables the level and no sampler ON THE PATH drops the entry, the leaf is written before control is
+   lost - whatever the samplers elsewhere in the tree (before, between or after it in a tee, at any depth) decide *)
+Theorem drop_spares_others_thm dec w lg m l ens ss id :
+  In m methods -> can_log m l = true -> terminal lg l ->
+  In (ens, ss, id) (paths_s (lcore lg) 0) ->
+  forallb (fun en => on w en l) ens = true -> (forall s, In s ss -> dec s = false) ->
+  In id (writes_of (fst (log_call_s dec w lg all_io (fam_of m) l))).
+Proof.
+  intros Hm Hc Ht Hp Hon Hss.
+  destruct (written_first_s_thm dec w lg m l Hm Hc Ht) as [-> _].
+  unfold delivered_s. apply (in_map (fun p : spath => snd p) _ (ens, ss, id)).
+  apply filter_In. split; [exact Hp|]. unfold spath_on. rewrite Hon. cbn [andb].
+  apply forallb_forall. intros s Hs. rewrite (Hss s Hs). reflexivity.
+Qed.
+
+(* ... and every sink below it, whatever the stack of WriteSyncer combinators, has committed everything *)
+Theorem committed_first_s_thm dec w lg m l lens st :
+  In m methods -> can_log m l = true -> terminal lg l ->
+  let st' := run_evs lens st (fst (log_call_s dec w lg all_io (fam_of m) l)) in
+  forall id, In id (delivered_s dec w (lcore lg) 0 l) ->
+    Forall (eq 0) (sk_pending 0 (st' id)) /\ map (Z.add 0) (sk_committed (st' id)) = sk_held 0 (st' id).
+Proof.
+  intros Hm Hc Ht st' id Hin. subst st'.
+  destruct (written_first_s_thm dec w lg m l Hm Hc Ht) as [Hw _]. revert Hw.
+  rewrite log_call_s_eq. cbn [fst]. rewrite writes_of_write_events. intros Hw.
+  assert (settled (run_evs lens st (write_events all_io l (call_writers_s dec w (lcore lg) (fam_of m) l)) id)) as Hs.
+  { apply (run_write_events_settled l _ (terminal_hi lg l Ht)). right. rewrite Hw. exact Hin. }
+  split; [exact Hs|]. symmetry. apply nothing_pending_all_committed. exact Hs.
+Qed.
+
 (* ---------------- zapio.Writer: only when its level is enabled ---------------- *)
 Theorem zapio_partial w lg io l :
   enabled w (lcore lg) l = true -> terminal lg l ->
@@ -444,43 +536,77 @@ Proof. induction 1 as [|x r Hx _ IH]; [reflexivity|]. subst x. cbn [map forallb 
 (* the stacks keep their shape from call to call *)
 Definition st_inv (st0 st : sinks) : Prop := forall id, sk_nsinks (st id) = sk_nsinks (st0 id).
 
-Lemma spec_pend_model w lg ids stks l st :
+Lemma spec_pend_model dec w lg ids stks l st :
   st_inv (sk_init ids stks) st ->
-  ((ErrorL <? l) = true -> forall id, In id (delivered w (lcore lg) l) -> settled (st id)) ->
-  spec_pend w lg ids stks l (enc_pend ids st) = true.
+  ((ErrorL <? l) = true -> forall id, In id (delivered_s dec w (lcore lg) 0 l) -> settled (st id)) ->
+  spec_pend dec w lg ids stks l (enc_pend ids st) = true.
 Proof.
   intros Hinv Hs. unfold spec_pend, enc_pend. cbn [sx_l]. rewrite map_length, Nat.eqb_refl. cbn [andb].
   rewrite forallb_combine_map. apply forallb_forall. intros id _. cbn [sx_l].
   rewrite map_length, pending_length, (Hinv id), Nat.eqb_refl. cbn [andb].
-  destruct ((ErrorL <? l) && existsb (Nat.eqb id) (delivered w (lcore lg) l)) eqn:E; [|reflexivity].
+  destruct ((ErrorL <? l) && existsb (Nat.eqb id) (delivered_s dec w (lcore lg) 0 l)) eqn:E; [|reflexivity].
   apply andb_true_iff in E. destruct E as [Hhi He]. apply existsb_exists in He. destruct He as [x [Hin Hx]].
   apply Nat.eqb_eq in Hx. subst x. apply forallb_is_zero. exact (Hs Hhi id Hin).
 Qed.
 
-Lemma spec_model_call w lg ids stks st cl :
-  wf_call cl = true -> st_inv (sk_init ids stks) st ->
-  spec_call w lg ids stks cl (fst (model_call w lg ids st cl)) = true /\
-  st_inv (sk_init ids stks) (snd (model_call w lg ids st cl)).
+(* a call of a well-formed case, whatever the samplers decide *)
+Lemma log_call_s_wf dec w lg cl :
+  wf_call cl = true ->
+  log_call_s dec w lg all_io (fam_of (c_method cl)) (c_level cl) =
+  (write_events all_io (c_level cl) (call_writers_s dec w (lcore lg) (fam_of (c_method cl)) (c_level cl)), must_end lg (c_level cl)).
 Proof.
-  intros Hwf Hinv. unfold spec_call, model_call, front_call. rewrite (log_call_wf w lg cl Hwf). cbn [fst snd].
+  intros Hwf. destruct (wf_call_In cl Hwf) as [Hin Hc]. rewrite log_call_s_eq, <- after_hook_must_end. f_equal.
+  destruct (terminal_b lg (c_level cl)) eqn:T.
+  - apply terminal_b_spec in T. rewrite (reaches_terminal w (lcore lg) _ _ lg Hin Hc T). reflexivity.
+  - assert (~ terminal lg (c_level cl)) as Hn by (rewrite <- terminal_b_spec, T; discriminate).
+    rewrite (after_hook_not_terminal lg _ Hn). destruct (reaches_check w (lcore lg) (fam_of (c_method cl)) (c_level cl)); reflexivity.
+Qed.
+
+(* the decisions the oracle reads back from the model's report are the ones that mattered: the call asked only the
+   samplers it reports, and those only at a sampled level *)
+Lemma reported_front_ends dec w c f l :
+  let dec' := reported_drop (map (enc_report dec) (call_consulted dec w c f l)) in
+  leaves_of (call_writers_s dec w c f l) = delivered_s dec' w c 0 l /\
+  hooks_of (call_writers_s dec w c f l) = hooks_due_s dec' w c 0 l.
+Proof.
+  intros dec'.
+  assert (Hag : forall j, In j (call_consulted dec w c f l) -> dec j = dec' j).
+  { intros j Hj. unfold dec'. rewrite reported_drop_enc. apply existsb_eqb_In in Hj. rewrite Hj. reflexivity. }
+  assert (Heff : forall j, effective dec' l j = dec' j).
+  { intros j. unfold effective. destruct (dec' j) eqn:D; [|apply andb_false_r].
+    unfold dec' in D. rewrite reported_drop_enc in D. apply andb_true_iff in D. destruct D as [D _].
+    apply existsb_eqb_In in D. rewrite (call_consulted_valid dec w c f l j D). reflexivity. }
+  assert (Hws : call_writers_s dec w c f l = call_writers_s dec' w c f l) by (apply call_writers_s_agree; exact Hag).
+  destruct (sampler_front_ends_thm dec' w c f l) as [HL HH].
+  rewrite (delivered_s_ext _ _ w c 0%nat l Heff) in HL. rewrite (hooks_due_s_ext _ _ w c 0%nat l Heff) in HH.
+  rewrite <- Hws in HL, HH. split; [exact HL|exact HH].
+Qed.
+
+Lemma spec_model_call dec w lg ids stks st cl :
+  wf_call cl = true -> st_inv (sk_init ids stks) st ->
+  spec_call w lg ids stks cl (fst (model_call dec w lg ids st cl)) = true /\
+  st_inv (sk_init ids stks) (snd (model_call dec w lg ids st cl)).
+Proof.
+  intros Hwf Hinv. unfold spec_call, model_call, front_call_s. cbv zeta. rewrite (log_call_s_wf dec w lg cl Hwf). cbn [fst snd].
+  destruct (reported_front_ends dec w (lcore lg) (fam_of (c_method cl)) (c_level cl)) as [HL HH]. cbv zeta in HL, HH.
   split.
   - unfold sx_nth. cbn [sx_l nth]. rewrite dec_enc_evs.
-    rewrite writes_of_write_events, hooks_of_write_events, appended_leaves, appended_hooks, !nat_list_eqb_refl.
+    rewrite writes_of_write_events, hooks_of_write_events, HL, HH, !nat_list_eqb_refl.
     rewrite sync_ok_write_events, enc_term_spec_term, sx_eqb_refl. cbn [andb].
     apply spec_pend_model.
     + intros id. rewrite run_evs_nsinks. apply Hinv.
-    + intros Hhi id Hin. apply (run_write_events_settled _ _ Hhi). right. rewrite appended_leaves. exact Hin.
+    + intros Hhi id Hin. apply (run_write_events_settled _ _ Hhi). right. rewrite HL. exact Hin.
   - intros id. rewrite run_evs_nsinks. apply Hinv.
 Qed.
 
-Lemma spec_model_calls w lg ids stks cls : forall st,
+Lemma spec_model_calls ps w lg ids stks cls : forall ctr st,
   forallb wf_call cls = true -> st_inv (sk_init ids stks) st ->
-  spec_calls w lg ids stks cls (model_calls w lg ids st cls) = true.
+  spec_calls w lg ids stks cls (model_calls ps ctr w lg ids st cls) = true.
 Proof.
-  induction cls as [|cl r IH]; intros st Hwf Hinv; [reflexivity|]. cbn [forallb] in Hwf. apply andb_true_iff in Hwf.
-  destruct Hwf as [H1 H2]. cbn [model_calls]. destruct (spec_model_call w lg ids stks st cl H1 Hinv) as [Ha Hb].
-  destruct (model_call w lg ids st cl) as [o st']. cbn [fst snd] in Ha, Hb. cbn [spec_calls].
-  rewrite Ha, (IH st' H2 Hb). reflexivity.
+  induction cls as [|cl r IH]; intros ctr st Hwf Hinv; [reflexivity|]. cbn [forallb] in Hwf. apply andb_true_iff in Hwf.
+  destruct Hwf as [H1 H2]. cbn [model_calls]. cbv zeta.
+  destruct (spec_model_call (ctr_dec ctr ps (c_level cl) (c_bucket cl)) w lg ids stks st cl H1 Hinv) as [Ha Hb].
+  cbn [spec_calls]. rewrite Ha. cbn [andb]. apply (IH _ _ H2 Hb).
 Qed.
 
 Lemma dec_logger_ext w i : dec_logger increase_ok w i = dec_logger spec_increase_ok w i.
@@ -490,18 +616,23 @@ Theorem spec_model i : wf i = true -> spec i (model i) = true.
 Proof.
   unfold wf, spec, model. destruct (is_table i); [intros _; apply sx_eqb_refl|]. cbn [orb]. intros Hwf.
   rewrite <- dec_logger_ext.
-  set (w := world_of (sx_nth i 1)). set (lg := dec_logger increase_ok w i).
+  set (w := world_of (sx_nth i 1)). set (lg := dec_logger increase_ok w i). set (ps := sparams (sx_nth i 0)).
   set (calls := map dec_call (sx_l (sx_nth i 6))) in *.
   set (stks := dec_stacks i). set (ids := sk_ids (lcore lg) stks).
   unfold sx_nth at 1. cbn [sx_l nth].
-  rewrite (spec_model_calls w lg ids stks calls (sk_init ids stks) Hwf (fun id => eq_refl)). cbn [andb].
+  rewrite (spec_model_calls ps w lg ids stks calls [] (sk_init ids stks) Hwf (fun id => eq_refl)). cbn [andb].
   destruct calls as [|cl [|cl' r]]; try reflexivity.
   destruct (sx_bool (sx_nth i 5)); [|reflexivity].
-  unfold sx_nth at 1. cbn [sx_l nth]. rewrite map_sx_n_of_nat.
-  cbn [forallb] in Hwf. rewrite andb_true_r in Hwf. rewrite (log_call_wf w lg cl Hwf). cbn [fst].
-  assert (Heq : forall ids', map (fun id => flushed_lines id (write_events all_io (c_level cl) (appended w (lcore lg) (c_level cl))) 0 0) ids' =
-                            map (fun id => if ErrorL <? c_level cl then count_writes id (delivered w (lcore lg) (c_level cl)) else 0%nat) ids').
-  { intros ids'. apply map_ext. intros id. rewrite flushed_write_events, appended_leaves. reflexivity. }
+  cbn [model_calls]. cbv zeta. unfold model_call. cbv zeta. cbn [fst snd].
+  unfold sx_nth. cbn [sx_l nth]. rewrite map_sx_n_of_nat.
+  cbn [forallb] in Hwf. rewrite andb_true_r in Hwf.
+  set (dec := ctr_dec [] ps (c_level cl) (c_bucket cl)).
+  rewrite (log_call_s_wf dec w lg cl Hwf). cbn [fst].
+  destruct (reported_front_ends dec w (lcore lg) (fam_of (c_method cl)) (c_level cl)) as [HL _]. cbv zeta in HL.
+  rewrite <- HL.
+  assert (Heq : forall ids', map (fun id => flushed_lines id (write_events all_io (c_level cl) (call_writers_s dec w (lcore lg) (fam_of (c_method cl)) (c_level cl))) 0 0) ids' =
+                            map (fun id => if ErrorL <? c_level cl then count_writes id (leaves_of (call_writers_s dec w (lcore lg) (fam_of (c_method cl)) (c_level cl))) else 0%nat) ids').
+  { intros ids'. apply map_ext. intros id. rewrite flushed_write_events. reflexivity. }
   rewrite Heq. apply nat_list_eqb_refl.
 Qed.
 
